@@ -27,6 +27,9 @@ import suites
 
 LAYOUT = ["shape", "order", "level-missing", "level-extra", "driver-exception"]
 PROPS = {
+    "C01": dict(suites={"plan": dict(fields=LAYOUT, oracles=["isolated", "exec_perm"])}),
+    "C02": dict(suites={"plan": dict(fields=LAYOUT, oracles=["deps_ordered"])}),
+    "C03": dict(suites={"plan": dict(fields=LAYOUT + ["tl", "tlorder"], oracles=["barriers", "tl_order"])}),
     "C04": dict(suites={"plan": dict(fields=LAYOUT + ["tl"], oracles=["exec_perm", "exec_perm(shape-sum)"])}),
     "C10": dict(suites={"plan": dict(fields=LAYOUT + ["maxthr"], oracles=["skip_justified", "max_threads"])}),
     "C18": dict(suites={"plan": dict(fields=["calls", "err", "driver-exception"], oracles=["errors_exact", "status:setup-panic", "status:run-panic"],
